@@ -663,3 +663,14 @@ def check_clone_variants(facts, tr, rep, rule, crate_names=None, only_suffix=Non
                                "clone of %s::%s produces %s::%s: every holder of a copy (e.g. a coalesced waiter) sees a different outcome than "
                                "the original" % (st["def"].split("::")[-1], arms[-1], st["def"].split("::")[-1], rv.get("variant")))
     return n
+
+
+def outcome_reach(g, a, tag, kinds=(N,)):
+    """blocks reachable after the await `a` completed with the outcome `tag` (a nested variant tag such as
+    ('Ok', ('Err', None)) for Ok(Err(_))): the poll result is assumed to be Ready(tag) and infeasible arms of every
+    later match on the value (however it is moved, re-wrapped or sent through `?`) are not followed"""
+    if a.ready_bb is None or a.poll_local is None:
+        return set()
+    sw_bb = g.term(a.poll_bb)["target"]
+    start = a.ready_bb
+    return g.reach([start], kinds=kinds, env0={a.poll_local: ("Ready", tag)})
